@@ -13,8 +13,8 @@
    and by the correspondence of the extracted writer model with the library.  Proved below: the
    statements do NOT hold for the pinned tree (five witnesses, each a defect with a patch or a
    finding). *)
-From CAres.Wire Require Import Cursor Name Record Parse Escape Escape_proofs RefDecode Name_ref Write Roundtrip Write_proofs Write_name Write_host Write_name2 Write_pos Write_boundary.
-From CAres.Gen Require Import Consts.
+From CAres.Wire Require Import Cursor Name Record Parse Escape Escape_proofs RefDecode Name_ref Write Roundtrip Write_proofs Write_name Write_host Write_name2 Write_pos Write_boundary Write_query.
+From CAres.Gen Require Import Consts Tables.
 Local Open Scope Z_scope.
 
 (* NAME ROUND TRIP, uncompressed path (both variants): for every sequence of valid labels (1..63
@@ -143,3 +143,26 @@ Theorem C03_roundtrip_refuted_txt_split :
   exists d bs d', dns_write d = Ok bs /\ dns_parse bs 0 = Ok d' /\ record_eqb d d' = false.
 Proof. exact abin_split_refuted. Qed.
 Print Assumptions C03_roundtrip_refuted_txt_split.
+
+(* LEGACY QUERY BUILDERS, width of the question TYPE.  Gen/Tables.v records by probing the working
+   tree whether ares_dns_rec_type_isvalid() accepts question types that do not fit the 16 bit TYPE
+   field ([rec_type_query_outside]).  On a tree that does (the pinned tree and every tree without
+   fixes/C03-query-type-16bit.patch) the builders violate C03_query_builders: ares_create_query(
+   "a.ex", C_IN, 65537, ...) succeeds and what is on the wire - and parses back - is a question for
+   type 1.  (The statement is vacuous on a tree with the fix.) *)
+Theorem C03_query_builders_refuted_type_truncation :
+  rec_type_query_outside = true ->
+  exists bs d', create_query wfixed ex_qname 1 65537 7 1 0 = Ok bs /\ dns_parse bs 0 = Ok d' /\
+                d_qd d' = [mkQ ex_qname 1 1].
+Proof. exact query_type_truncated. Qed.
+Print Assumptions C03_query_builders_refuted_type_truncation.
+
+(* ... and on a tree that refuses them, every record ares_dns_record_create_query() returns carries
+   a question type that the wire format can express.
+   _partial: the rest of C03_query_builders (parse (write (the record)) = the record) is not covered *)
+Theorem C03_query_type_fits_partial : forall name dnsclass type id flags max_udp d,
+  rec_type_query_outside = false ->
+  record_create_query name dnsclass type id flags max_udp = Ok d ->
+  Forall (fun q => 0 <= q_type q < 65536) (d_qd d).
+Proof. exact query_type_fits. Qed.
+Print Assumptions C03_query_type_fits_partial.
